@@ -140,6 +140,9 @@ func rulePXNilGuard(c *Ctx) []Obligation {
 				if rs == "recv" || (len(rs) >= 2 && rs[0] == 'p' && strings.Trim(rs[1:], "0123456789") == "") {
 					continue // the receiver / a parameter itself: the caller's obligation
 				}
+				if strings.HasPrefix(rs, "free:") && c.freeVarIsParentParam(f, strings.TrimPrefix(rs, "free:")) {
+					continue // a function literal using its maker's receiver / parameter: likewise
+				}
 				key := fmt.Sprintf("%s on %s is preceded by a nil test", e.Name, nilGuardShape(rs))
 				F := p.FactsAt(e)
 				ok := F.Has(eqAtom(rs, "nil"), false)
@@ -153,4 +156,50 @@ func rulePXNilGuard(c *Ctx) []Obligation {
 	}
 	c.typedNilAsserts(o)
 	return o.list
+}
+
+// freeVarIsParentParam: the variable name captured by the function literal f is, at every place the
+// literal is made, a parameter (or the receiver) of the enclosing function — by value, or the cell a
+// parameter was spilled into and that is never assigned again.
+func (c *Ctx) freeVarIsParentParam(f *ssa.Function, name string) bool {
+	if f.Parent() == nil {
+		return false
+	}
+	idx := -1
+	for i, fv := range f.FreeVars {
+		if fv.Name() == name {
+			idx = i
+		}
+	}
+	if idx < 0 {
+		return false
+	}
+	mcs := c.CG().fvIdx().closures[f]
+	if len(mcs) == 0 {
+		return false
+	}
+	for _, mc := range mcs {
+		if idx >= len(mc.Bindings) {
+			return false
+		}
+		b := mc.Bindings[idx]
+		if _, ok := b.(*ssa.Parameter); ok {
+			continue
+		}
+		al, ok := b.(*ssa.Alloc)
+		if !ok || al.Referrers() == nil {
+			return false
+		}
+		nst, fromParam := 0, false
+		for _, r := range *al.Referrers() {
+			if st, ok := r.(*ssa.Store); ok && st.Addr == ssa.Value(al) {
+				nst++
+				_, fromParam = st.Val.(*ssa.Parameter)
+			}
+		}
+		if nst != 1 || !fromParam {
+			return false
+		}
+	}
+	return true
 }
